@@ -192,8 +192,13 @@ CLAIMS = {
              "k-th chunk (+ padding on the last segment only); a responder record fed the segment frames of ANY conforming originator in "
              "order at arbitrary times and then the end-of-message status hands the message up exactly once, byte-identical, with the "
              "announced PGN, removes the record and never touches the send table (induction over the segments; broadcast and connection "
-             "mode).  Partial: the originator's send loop and the interleaving of concurrent sessions on 2-3 stacks are established by the "
-             "lock-step correspondence (nominal, hostile, lossy scripts with table dumps) and the network oracle, not by one theorem.",
+             "mode); BROADCAST END TO END (c02_bam_end_to_end, c02_bam_originator_frames): an accepted broadcast of 61 .. 2^24-1 bytes takes "
+             "number i < 4 from the broadcast pool; n+1 due passes put exactly announcement, n FD.TP.DT frames in order and the end-of-message "
+             "status on the bus, delete the record and return i; any node without a stale record for (i, source) handling these frames at "
+             "arbitrary times delivers the message exactly once byte-identical with the announced PGN and keeps no record (two parties "
+             "composed through the frame bytes: C03-22 layouts and decoders, segment frames, reception).  Partial: the connection-mode send "
+             "loop and the interleaving of concurrent sessions on 2-3 stacks are established by the lock-step correspondence (nominal, "
+             "hostile, lossy scripts with table dumps) and the network oracle, not by one theorem.",
         note="Proved/validated for the code as repaired by fix commits D5+D3, D22, D2, D24, D4, D23b (known_findings.json). Trusted: Lean kernel; "
              "numpy chunking modelled as 60-byte chunks (differential-tested); handler atomicity (latency > 0 as the property states).",
         technique="Lean 4 theorems over a hand model of j1939_22.py with regenerated leaves; lock-step correspondence; network oracle on real stacks",
